@@ -1967,6 +1967,42 @@ def _see_through_value_memos(mods: dict[str, Module], inv: dict, log: list[str])
             log.append(f"{mod.relpath} {q}: value memo `{cname}[{ktext}]` read as `{ast.unparse(E)[:60]}` ({n_reads} read(s))")
 
 
+def _append_loops_to_comprehensions(mods: dict[str, Module], log: list[str]) -> None:
+    """`xs = []` immediately followed by `for T in I: xs.append(E)` (or `if c: xs.append(E)` as the whole body) is `xs = [E for T in I (if c)]`."""
+    n = 0
+    for mod in mods.values():
+        for q, _, fn in _functions_of(mod):
+            for holder in [x for x in ast.walk(fn)]:
+                for fld in ("body", "orelse", "finalbody"):
+                    blk = getattr(holder, fld, None)
+                    if not (isinstance(blk, list) and blk and isinstance(blk[0], ast.stmt)):
+                        continue
+                    k = 0
+                    while k + 1 < len(blk):
+                        a, lp = blk[k], blk[k + 1]
+                        tg = a.targets[0] if isinstance(a, ast.Assign) and len(a.targets) == 1 else a.target if isinstance(a, ast.AnnAssign) and a.value is not None else None
+                        if isinstance(tg, ast.Name) and isinstance(getattr(a, "value", None), ast.List) and not a.value.elts and isinstance(lp, ast.For) and not lp.orelse and len(lp.body) == 1:
+                            b0 = lp.body[0]
+                            cond = None
+                            if isinstance(b0, ast.If) and not b0.orelse and len(b0.body) == 1:
+                                cond, b0 = b0.test, b0.body[0]
+                            if isinstance(b0, ast.Expr) and isinstance(b0.value, ast.Call) and isinstance(b0.value.func, ast.Attribute) and b0.value.func.attr == "append" \
+                                    and isinstance(b0.value.func.value, ast.Name) and b0.value.func.value.id == tg.id and len(b0.value.args) == 1 and not b0.value.keywords \
+                                    and not any(isinstance(x, ast.Name) and x.id == tg.id for x in ast.walk(b0.value.args[0])) \
+                                    and not any(isinstance(x, ast.Name) and x.id == tg.id for x in ast.walk(lp.iter)) \
+                                    and not (cond is not None and any(isinstance(x, ast.Name) and x.id == tg.id for x in ast.walk(cond))) \
+                                    and not any(isinstance(x, (ast.Yield, ast.YieldFrom, ast.Await, ast.NamedExpr)) for x in ast.walk(lp)):
+                                comp = ast.ListComp(elt=b0.value.args[0], generators=[ast.comprehension(target=lp.target, iter=lp.iter, ifs=[cond] if cond is not None else [], is_async=0)])
+                                new = ast.copy_location(ast.Assign(targets=[ast.Name(id=tg.id, ctx=ast.Store())], value=comp), a)
+                                ast.fix_missing_locations(new)
+                                blk[k:k + 2] = [new]
+                                n += 1
+                                continue
+                        k += 1
+    if n:
+        log.append(f"{n} single-statement append loop(s) read as list comprehensions")
+
+
 def _splice_starred_displays(mods: dict[str, Module], log: list[str]) -> None:
     """`f(a, *(b, c))` is `f(a, b, c)` (after a local holding the tuple has been substituted)."""
     n = 0
@@ -2057,6 +2093,9 @@ def _canonical_foreach(mods: dict[str, Module], log: list[str]) -> None:
                     k = 0
                     while k < len(b):
                         st = b[k]
+                        if isinstance(st, ast.While) and isinstance(st.test, ast.Compare) and len(st.test.ops) == 1 and isinstance(st.test.ops[0], ast.Gt) \
+                                and isinstance(st.test.comparators[0], ast.Name) and not isinstance(st.test.left, ast.Name):
+                            st.test = ast.copy_location(ast.Compare(left=st.test.comparators[0], ops=[ast.Lt()], comparators=[st.test.left]), st.test)     # `n > i` is `i < n`
                         if isinstance(st, ast.While) and not st.orelse and isinstance(st.test, ast.Compare) and len(st.test.ops) == 1 and isinstance(st.test.ops[0], ast.Lt) \
                                 and isinstance(st.test.left, ast.Name) and st.body and not any(isinstance(x, (ast.Break, ast.Continue, ast.Return)) for x in ast.walk(st)):
                             iv = st.test.left.id
@@ -2078,7 +2117,8 @@ def _canonical_foreach(mods: dict[str, Module], log: list[str]) -> None:
                             after = any(isinstance(x, ast.Name) and x.id == iv for s2 in b[k + 1:] for x in ast.walk(s2))
                             bound_names = {x.id for x in ast.walk(bound) if isinstance(x, ast.Name)}
                             bound_stable = _pure(bound) and not any(isinstance(x, ast.Name) and x.id in bound_names and isinstance(x.ctx, ast.Store) for s2 in st.body for x in ast.walk(s2)) \
-                                and not any(isinstance(x, ast.Call) and isinstance(x.func, ast.Attribute) and x.func.attr in ("append", "extend", "pop", "remove", "insert", "clear") for s2 in st.body for x in ast.walk(s2))
+                                and not any(isinstance(x, ast.Call) and isinstance(x.func, ast.Attribute) and x.func.attr in ("append", "extend", "pop", "remove", "insert", "clear", "update", "resize")
+                                            and any(isinstance(y, ast.Name) and y.id in bound_names for y in ast.walk(x.func.value)) for s2 in st.body for x in ast.walk(s2))
                             if inc and stores_in_body == 0 and init is not None and not after and bound_stable:
                                 new = ast.For(target=ast.Name(id=iv, ctx=ast.Store()),
                                               iter=ast.Call(func=ast.Name(id="range", ctx=ast.Load()), args=[b[init].value, bound] if b[init].value.value != 0 else [bound], keywords=[]),
@@ -2885,6 +2925,7 @@ def canonicalise(mods: dict[str, Module]) -> dict:
     _inline_new_constants(mods, inv, cm_log)
     align_locals(mods, inv, loc_log)
     _map_to_comprehension(mods, cm_log)
+    _append_loops_to_comprehensions(mods, cm_log)
     _exitstack_to_try(mods, cm_log)
     _flatten_reraising_try(mods, cm_log)
     _see_through_value_memos(mods, inv, cm_log)
@@ -2910,6 +2951,7 @@ def canonicalise(mods: dict[str, Module]) -> dict:
     _split_parallel_assign(mods, fwd_log)
     _Forward(mods, inv, fwd_log).run()
     _canonical_foreach(mods, fwd_log)
+    _append_loops_to_comprehensions(mods, fwd_log)
     _Forward(mods, inv, fwd_log).run()
     _splice_starred_displays(mods, fwd_log)
     # displays that only became literal once new locals / constants were substituted
